@@ -1,6 +1,8 @@
 """C07 - a response split into two fragments is reassembled exactly (DESIGN 6/C07)."""
 from __future__ import annotations
 
+import asyncio
+
 from sim.net import World, DEFAULT_LATENCY
 from sim.device import SimInverter
 from . import common as C
@@ -123,7 +125,7 @@ def _make_case(tier, seed, index):
     d1 = rnd.choice([DEFAULT_LATENCY, tau / 4])
     d2 = rnd.choice([d1, tau / 2, tau - EPS, tau + EPS, 1.5 * tau])
     cls = rnd.choice(["minus", "plus", "flip", "other", "garbage", "lone_refrag", "lone_refrag", "lone_ok", "late_rem",
-                      "late_rem", "two_req", "two_req", "collide", "late_head", "late_head"])
+                      "late_rem", "two_req", "two_req", "collide", "late_head", "late_head", "idle_head"])
     rem = L - s
     cmd = _cmd(fr, size, rnd)
     if cls == "minus":
@@ -168,6 +170,13 @@ def _make_case(tier, seed, index):
         # which is lost, prompt or late itself
         faults = [{"k": "frag", "s": s, "d1": d1, "d2": rnd.choice([tau + d1 + EPS, tau + d1, 2 * tau, tau + EPS])},
                   rnd.choice([{"k": "drop"}, {"k": "ok", "d": tau / 2}, {"k": "ok", "d": tau - EPS}])]
+    elif cls == "idle_head":
+        # request 1 is answered; the first piece of a duplicate of that answer arrives while the kept-open socket is
+        # IDLE; request 2 (same shape) is answered in two pieces, the first as long as what the stale piece is missing
+        s2 = L - s
+        first = {"k": "ok", "d": DEFAULT_LATENCY, "then": [{"ev": "data", "what": "prefix", "s": s, "d": 4 * DEFAULT_LATENCY}]}
+        second = {"k": "frag", "s": max(1, min(s2, L - 1)), "d1": DEFAULT_LATENCY, "d2": rnd.choice([2 * DEFAULT_LATENCY, tau / 2])}
+        faults = [first, second]
     elif cls == "two_req":
         # request 1: a truncated copy followed by the whole answer (succeeds, a fragment may stay stored);
         # request 2 (same length): answer split so that its first piece has exactly the stale fragment's missing length
@@ -192,6 +201,14 @@ def _make_case(tier, seed, index):
             faults.append({"k": "ok"})
     case = {"kind": "neg", "framing": fr, "size": size, "cmd": cmd, "keep_alive": rnd.random() < 0.6,
             "timeout": tau, "retries": r, "timing": cls, "faults": faults}
+    if cls == "idle_head":
+        cmd2 = dict(cmd)
+        if "reg" in cmd2:
+            cmd2["reg"] = (cmd2["reg"] + 300) & 0xFFFF
+        case["cmd2"] = cmd2
+        case["keep_alive"] = True
+        case["pause"] = 8 * DEFAULT_LATENCY
+        case["timing"] = "two_req"   # judged like the two-request class: request 2 returns exactly ITS answer
     if cls == "two_req":
         cmd2 = dict(cmd)
         if "reg" in cmd2:
@@ -246,6 +263,8 @@ def run_case(case):
     async def main():
         state["rec"] = await C.do_execute(world, proto, case["cmd"], "read")
         if case.get("cmd2"):
+            if case.get("pause"):
+                await asyncio.sleep(case["pause"])
             state["rec2"] = await C.do_execute(world, proto, case["cmd2"], "read2")
 
     status, _ = C.run_world(world, main())
